@@ -26,7 +26,12 @@ Definition cell := list payload.
 Definition cells_eqb : list (list cell) -> list (list cell) -> bool :=
   list_eqb (list_eqb (list_eqb payload_eqb)).
 
-Inductive step := SSel (dim : nat) (ix : index) | SPair (i j : index).
+(* _MultiTensor._normalize_dim: dims -3..-1 wrap to 0..2; dim 2 (the ragged axis) and anything else raise *)
+Definition normalize_dim_z (d : Z) : option nat :=
+  let d' := if (d <? 0)%Z then (d + 3)%Z else d in
+  if (d' =? 0)%Z then Some 0 else if (d' =? 1)%Z then Some 1 else None.
+
+Inductive step := SSel (dim : nat) (ix : index) | SSelZ (dim : Z) (ix : index) | SPair (i j : index).
 Inductive obs := OErr | OVal (v : cell) | OCells (r c : nat) (m : list (list cell)) | OUnreadable.
 
 Definition obs_step_eqb (a b : obs) : bool :=
@@ -57,6 +62,15 @@ Section Run.
     | SSel d ix :: rest =>
         match select _ _ K t ix d with
         | Some t' => observe t' :: run_prog t' rest
+        | None => [OErr]
+        end
+    | SSelZ dz ix :: rest =>
+        match normalize_dim_z dz with
+        | Some d =>
+            match select _ _ K t ix d with
+            | Some t' => observe t' :: run_prog t' rest
+            | None => [OErr]
+            end
         | None => [OErr]
         end
     | SPair i j :: rest =>
